@@ -3,6 +3,7 @@
 package l1
 
 import (
+	"context"
 	"errors"
 	"fmt"
 	"sort"
@@ -139,11 +140,22 @@ func Check(res *Result) []Violation {
 		ji := make([]jinfo, nj)
 		cancelSeq := 0
 		waitRet := 0
+		jcancel := make([]int, nj) // sequence number at which the job's own context was cancelled (0: never / shared)
+		dynamicCtx := false        // some own context is cancelled at a schedule-dependent instant
+		for j := 0; j < nj; j++ {
+			if sd.Jobs[j].Ctx == CtxOwnCancelledBy {
+				dynamicCtx = true
+			}
+		}
 		for _, e := range res.Events {
 			if e.S != si {
 				continue
 			}
 			switch e.Kind {
+			case EvJobCancel:
+				if jcancel[e.J] == 0 {
+					jcancel[e.J] = e.Seq
+				}
 			case EvEnqCall:
 				ji[e.J].enq = e.Seq
 			case EvStart:
@@ -161,7 +173,8 @@ func Check(res *Result) []Violation {
 				waitRet = e.Seq
 			}
 		}
-		failed := func(j int) bool { return sd.Jobs[j].Out != OutOK }
+		dead := func(j int) bool { return sd.Jobs[j].Ctx == CtxOwnDead } // never allowed to start; its dependents neither
+		failed := func(j int) bool { return sd.Jobs[j].Out != OutOK || dead(j) }
 
 		// ---- C01 ----
 		for j := 0; j < nj; j++ {
@@ -205,6 +218,14 @@ func Check(res *Result) []Violation {
 			}
 			if sr.ctxErrAtRet != nil && errors.Is(e, sr.ctxErrAtRet) {
 				return -1, true
+			}
+			if errors.Is(e, context.Canceled) {
+				// the error of a job's own context, for a job that was skipped because of it
+				for j := 0; j < nj; j++ {
+					if jcancel[j] != 0 && ji[j].start == 0 {
+						return -1, true
+					}
+				}
 			}
 			return -2, false
 		}
@@ -288,15 +309,24 @@ func Check(res *Result) []Violation {
 				if goexitEntries != goexits {
 					add("C08", "entry-count", fmt.Sprintf("s%d: %d jobs exited their goroutine but %d such entries are reported", si, goexits, goexitEntries))
 				}
-				if ctxEntries > 0 && !cancelled && !ctxAtRet {
+				ownCancelled := false
+				for j := 0; j < nj; j++ {
+					if jcancel[j] != 0 {
+						ownCancelled = true
+					}
+				}
+				if ctxEntries > 0 && !cancelled && !ctxAtRet && !ownCancelled {
 					add("C08", "ctx-entry-without-cancel", fmt.Sprintf("s%d: context error reported but the context was never cancelled", si))
 				}
 				if ctxEntries > notStarted+1 {
 					add("C08", "ctx-entry-count", fmt.Sprintf("s%d: %d context errors for %d skipped jobs", si, ctxEntries, notStarted))
 				}
 			}
-			if cancelSeq == 0 {
+			if cancelSeq == 0 && !dynamicCtx {
 				for j := 0; j < nj; j++ {
+					if dead(j) {
+						continue // judged by C09 below
+					}
 					if runnable[j] && ji[j].starts != 1 {
 						add("C08", "runnable-not-run", fmt.Sprintf("s%d: job %d has all dependencies succeeded but was started %d times", si, j, ji[j].starts))
 					}
@@ -365,6 +395,22 @@ func Check(res *Result) []Violation {
 			}
 		}
 
+		// per-job contexts: a job whose own context was done before it could start must not start
+		for j := 0; j < nj; j++ {
+			if jcancel[j] == 0 || ji[j].start == 0 || ji[j].start < jcancel[j] {
+				continue
+			}
+			switch sd.Jobs[j].Ctx {
+			case CtxOwnDead:
+				add("C09", "started-after-cancel:enqueued-later", fmt.Sprintf("s%d: job %d was enqueued with a context that was already cancelled (#%d) and was still started (#%d)", si, j, jcancel[j], ji[j].start))
+			case CtxOwnCancelledBy:
+				by := sd.Jobs[j].CtxBy
+				if by != j && dependsOn(sd, j, by) {
+					add("C09", "started-after-cancel:dependent", fmt.Sprintf("s%d: job %d depends on job %d, which cancelled job %d's context (#%d) before it finished, and was still started (#%d)", si, j, by, j, jcancel[j], ji[j].start))
+				}
+			}
+		}
+
 		// ---- C19 ----
 		for k := 0; k < sr.nstates; k++ {
 			rep := sr.states[k]
@@ -408,6 +454,25 @@ func Check(res *Result) []Violation {
 		}
 	}
 	return dedupe(out)
+}
+
+// dependsOn reports whether job j transitively depends on job k.
+func dependsOn(sd *SchedD, j, k int) bool {
+	seen := map[int]bool{}
+	var walk func(x int) bool
+	walk = func(x int) bool {
+		if seen[x] {
+			return false
+		}
+		seen[x] = true
+		for _, d := range sd.Jobs[x].Deps {
+			if d == k || walk(d) {
+				return true
+			}
+		}
+		return false
+	}
+	return walk(j)
 }
 
 func dedupe(v []Violation) []Violation {
